@@ -432,6 +432,24 @@ let dispatch (cmd : string) (args : sx list) : sx =
        | Arr a -> out_of_res (Ok (Arr (sort_by val_cmp a)))
        | _ -> unmodelled)
   | "run", _ -> cmd_run args
+  | "cli", [tree; L optl; L vars; Str stdin; Atom fuel] ->
+      let has a = List.mem (Atom a) optl in
+      let indent = (match List.find_opt (function L [Atom "indent"; _] -> true | _ -> false) optl with
+                    | Some (L [_; Str i]) -> i | _ -> "  ") in
+      let o = { o_null_input = has "null-input"; o_slurp = has "slurp";
+                o_from = (if has "raw-input" then InRaw else if has "raw-input0" then InRaw0 else InJson);
+                o_to = (if has "raw-output0" then OutRaw0 else if has "raw-output" || has "join" then OutRaw else OutJson);
+                o_compact = has "compact"; o_join = has "join"; o_sort_keys = has "sort-keys";
+                o_indent = bytes_of_string indent; o_exit_status = has "exit-status" } in
+      let names = List.map (function L [Atom n; _] -> "$" ^ n | _ -> failwith "var") vars in
+      let vals = List.map (function L [_; v] -> val_of_sx v | _ -> failwith "var") vars in
+      let pre = get_pre names in
+      let prog = compile_main !natives (List.map bytes_of_string names) pre (pterm_of tree) in
+      let (out, oc) = run_cli (nat_of_int (int_of_string fuel)) o prog vals (bytes_of_string stdin) in
+      let code = int_of_z (exit_code o oc) in
+      L [Atom "cli"; Str (string_of_bytes out); Atom (string_of_int code);
+         Atom (match oc with Finished _ -> "finished" | RunError -> "run-error" | Halted _ -> "halted" | InputError _ -> "input-error"
+                           | WriteError -> "write-error" | OutOfModel -> "out-of-model")]
   | "compile", _ -> cmd_compile args
   | "tojson", [a] -> L [Atom "S"; Str (string_of_bytes (to_json (val_of_sx a)))]
   | "write", [indent; Atom sort; Atom sep; a] ->
